@@ -147,18 +147,23 @@ Definition same_kind (a b : val) : bool :=
   | VL _, VL _ => true
   | _, _ => false
   end.
-Fixpoint cmp_polls (idx dm di : N) (m i : list val) : list val :=
+Definition is_terminal_res (r : val) : bool :=
+  match r with VN 1 => true | VN 2 => true | VB _ => false | VN _ => false | _ => true end.
+(* `live`: neither side has reported its end, an error or a panic yet; what the hint and the flag
+   say after a failed or finished body is constrained only by "nothing more comes" (oracles) *)
+Fixpoint cmp_polls (live : bool) (idx dm di : N) (m i : list val) : list val :=
   match m, i with
   | [], [] => []
   | VL [mr; mh; me] :: m', VL [ir; ih; ie] :: i' =>
       let dm' := dm + data_len mr in
       let di' := di + data_len ir in
+      let live' := live && negb (is_terminal_res mr) && negb (is_terminal_res ir) in
       let f := cmp_field F_POLL_RES (VL [VN idx; mr]) (VL [VN idx; ir])
-               ++ (if (dm' =? di') && same_kind mr ir then
+               ++ (if live' && (dm' =? di') && same_kind mr ir then
                      cmp_field F_POLL_HINT (VL [VN idx; mh]) (VL [VN idx; ih])
                      ++ cmp_field F_POLL_EOS (VL [VN idx; me]) (VL [VN idx; ie])
                    else []) in
-      f ++ cmp_polls (idx + 1) dm' di' m' i'        (* keep going: a later field may be the constrained one *)
+      f ++ cmp_polls live' (idx + 1) dm' di' m' i'        (* keep going: a later field may be the constrained one *)
   | _, _ => [finding K_DIVERGE F_POLLS (VL m) (VL i)]
   end.
 
@@ -208,6 +213,7 @@ Definition status_class (s : val) : val :=
   end.
 Definition lower_nospace (b : bytes) : bytes :=
   flat_map (fun c => if (c =? 32) || (c =? 9) then [] else [if (65 <=? c) && (c <=? 90) then c + 32 else c]) b.
+Definition after_kind (k : N) : N := if (k =? 4) || (k =? 3) then k else 0.
 Definition F_BODY_BYTES := bs "body.bytes"%string.
 Definition F_BODY_LEN := bs "body.len"%string.
 Definition F_BODY_END := bs "body.end"%string.
@@ -218,8 +224,15 @@ Definition F_ALLOW := bs "allow"%string.
 Definition F_CALLS405 := bs "calls.405"%string.
 Definition H_ALLOW_ := bs "allow"%string.
 
+(* C20's proviso: the entity's streams stay finished once they have failed (an error is the last event) *)
+Definition ev_is_err_ (e : ev) : bool := match e with EvErr _ => true | _ => false end.
+Definition fused_stream (s : list ev) : bool :=
+  match rev s with
+  | [] => true
+  | _ :: before => negb (existsb ev_is_err_ before)
+  end.
 (* `mx`: the model's polls run far enough to reach its terminal event whatever the framing *)
-Definition cmp_derived (ms is_ : val) (mh ih : list val) (mx ip : list val) (mc ic : val) : list val :=
+Definition cmp_derived (fused : bool) (ms is_ : val) (mh ih : list val) (mx ip : list val) (mc ic : val) : list val :=
   let '(md, mt, ma) := split_body mx in
   let '(id, it, ia) := split_body ip in
   cmp_field F_STATUS_CLASS (status_class ms) (status_class is_)
@@ -231,16 +244,19 @@ Definition cmp_derived (ms is_ : val) (mh ih : list val) (mx ip : list val) (mc 
       else cmp_field F_BODY_END (VN mt) (VN it)
            ++ cmp_field F_BODY_LEN (VN (lenN md)) (VN (lenN id))
            ++ cmp_field F_BODY_BYTES (VB md) (VB id)
-           ++ cmp_field F_BODY_AFTER (of_list VN (firstn (length ia) ma)) (of_list VN ia)).
+           (* after the terminal event only "no data, no panic" is constrained: which of end / error / pending
+              a finished body answers is not *)
+           ++ (if fused then cmp_field F_BODY_AFTER (of_list VN (map after_kind (firstn (length ia) ma))) (of_list VN (map after_kind ia))
+               else [])).
 
-Definition cmp_obs (model impl : val) (mx : list val) : list val :=
+Definition cmp_obs (fused : bool) (model impl : val) (mx : list val) : list val :=
   match model, impl with
   | VL [ms; VL mh; mh0; me0; VL mp; mc], VL [is_; VL ih; ih0; ie0; VL ip; ic] =>
       cmp_field F_STATUS ms is_
       ++ (if val_eqb ms is_ then cmp_hdrs mh ih else [])     (* headers of different statuses are not comparable *)
       ++ cmp_field F_HINT0 mh0 ih0 ++ cmp_field F_EOS0 me0 ie0
-      ++ firstn 12 (cmp_polls 0 0 0 mp ip) ++ cmp_field F_CALLS mc ic
-      ++ cmp_derived ms is_ mh ih mx ip mc ic
+      ++ firstn 12 (cmp_polls true 0 0 0 mp ip) ++ cmp_field F_CALLS mc ic
+      ++ cmp_derived fused ms is_ mh ih mx ip mc ic
   | _, _ => cmp_field F_SHAPE model impl
   end.
 
